@@ -194,11 +194,12 @@ Api(s, self, has, id, r, types, cache) ==
                                 ELSE IF stay /\ ~RespPausedView(r) /\ r.status \notin InFinalization THEN << TCall("pause") >> ELSE << >>]
     [] k = "Close" ->
          IF ~has THEN nf
-         ELSE [Out0(cache) EXCEPT !.tr = << TCall("close") >>, !.net = << Send(OtherOf(id), CancelMsg(id), ok1) >>,
-                 !.evs = IF ok1 THEN << <<"Cancel", 0>> >> ELSE << <<"Cancel", 0>> >>]      \* the failed send's Disconnected races with Cancel
+         ELSE [Out0(cache) EXCEPT !.tr = << [TCall("close") EXCEPT !.ok = ~s.openFail] >>, !.net = << Send(OtherOf(id), CancelMsg(id), ok1) >>,
+                 !.evs = IF ok1 THEN << <<"Cancel", 0>> >> ELSE << <<"Cancel", 0>> >>]      \* the failed send's Disconnected races with Cancel; a transport that
+                                                                                             \* does not know the channel (close fails) changes nothing else
     [] k = "CloseErr" ->
          IF ~has THEN nf
-         ELSE [Out0(cache) EXCEPT !.tr = << TCall("close") >>, !.net = << Send(OtherOf(id), CancelMsg(id), ok1) >>, !.evs = << <<"Error", s.args.err>> >>]
+         ELSE [Out0(cache) EXCEPT !.tr = << [TCall("close") EXCEPT !.ok = ~s.openFail] >>, !.net = << Send(OtherOf(id), CancelMsg(id), ok1) >>, !.evs = << <<"Error", s.args.err>> >>]
     [] k = "Pause" ->
          IF ok1 THEN [Out0(cache) EXCEPT !.tr = << TCall("pause") >>, !.net = << Send(OtherParty(id), PauseMsg(id, TRUE), TRUE) >>,
                         !.evs = IF has THEN << <<IF id.initiator = self THEN "PauseInitiator" ELSE "PauseResponder", 0>> >> ELSE << >>,
